@@ -190,6 +190,128 @@ func ruleRef7(c *Ctx) []*Ob {
 	return o.list
 }
 
+func init() {
+	register(&Rule{
+		ID: "REF-9",
+		Doc: "Copied segment locations are pinned: a Footer literal whose SegmentLocs are copied from another footer's SegmentLocs shares that footer's mmap references; the function must take its own " +
+			"references with SegmentLocs.AddRef() on the copy, or (buildNewFooter) its result must be handed to loadSegments by the publisher, which takes them. Otherwise closing the other footer " +
+			"unmaps the data under the new one.",
+		Props: []string{"C12", "C15", "C02"},
+		Floor: 1,
+		Run:   ruleRef9,
+	})
+}
+
+func ruleRef9(c *Ctx) []*Ob {
+	o := newObs(c, "REF-9")
+	fSL := c.Field("Footer", "SegmentLocs")
+	load := c.Fn("(*Footer).loadSegments")
+	for _, f := range c.Funcs {
+		fn := c.fname(f)
+		eachInstr(f, func(i ssa.Instruction) {
+			a, ok := i.(*ssa.Alloc)
+			if !ok || typeName(a.Type()) != "Footer" {
+				return
+			}
+			if _, isStruct := a.Type().Underlying().(*types.Pointer).Elem().Underlying().(*types.Struct); !isStruct {
+				return
+			}
+			// the SegmentLocs stored into the literal (also later stores to the same object)
+			var stored []*ssa.Store
+			if refs := a.Referrers(); refs != nil {
+				for _, r := range *refs {
+					if fa, ok := r.(*ssa.FieldAddr); ok && fieldAddrVar(fa) == fSL {
+						if rr := fa.Referrers(); rr != nil {
+							for _, u := range *rr {
+								if st, ok := u.(*ssa.Store); ok && st.Addr == ssa.Value(fa) {
+									stored = append(stored, st)
+								}
+							}
+						}
+					}
+				}
+			}
+			for _, st := range stored {
+				// copied from another footer's SegmentLocs?
+				copied := backSlice(st.Val, func(v ssa.Value) bool {
+					if call, ok := v.(*ssa.Call); ok {
+						if b, isB := call.Call.Value.(*ssa.Builtin); isB && b.Name() == "append" {
+							for _, arg := range call.Call.Args {
+								for n := 0; n < 4; n++ {
+									switch x := arg.(type) {
+									case *ssa.ChangeType:
+										arg = x.X
+									case *ssa.Convert:
+										arg = x.X
+									case *ssa.Slice:
+										arg = x.X
+									}
+								}
+								if fv, base := loadedField(arg); fv == fSL && base != ssa.Value(a) {
+									return true
+								}
+							}
+						}
+					}
+					fv, base := loadedField(v)
+					return fv == fSL && base != ssa.Value(a)
+				})
+				if !copied {
+					continue
+				}
+				// pinned in place?
+				pinned := false
+				eachInstr(f, func(j ssa.Instruction) {
+					call, ok := j.(*ssa.Call)
+					if !ok {
+						return
+					}
+					sf := call.Call.StaticCallee()
+					if sf == nil || sf.Name() != "AddRef" || sf.Signature.Recv() == nil || typeName(sf.Signature.Recv().Type()) != "SegmentLocs" {
+						return
+					}
+					if sameValue(call.Call.Args[0], st.Val) || backSlice(st.Val, func(v ssa.Value) bool { return v == call.Call.Args[0] }) {
+						pinned = true
+					}
+				})
+				why := "the copy takes its own mmap references (SegmentLocs.AddRef)"
+				if !pinned {
+					// or every caller hands the result to loadSegments
+					viaLoad := false
+					sites := c.Callers(f)
+					nOK := 0
+					for _, s := range sites {
+						if s.Caller == f {
+							nOK++
+							continue
+						}
+						call, isCall := s.Instr.(*ssa.Call)
+						if !isCall {
+							continue
+						}
+						res := firstResult(call)
+						for _, k := range callsToFn(s.Caller, load) {
+							if res != nil && sameValue(k.Call.Args[0], res) {
+								nOK++
+							}
+						}
+					}
+					if len(sites) > 0 && nOK == len(sites) {
+						viaLoad = true
+						why = "every caller passes the new footer to loadSegments, which takes the mmap references"
+					}
+					pinned = viaLoad
+				}
+				if !pinned {
+					why = "the new footer copies the SegmentLocs of another footer without taking references on their mappings: when that footer (e.g. a history snapshot) is closed the data is unmapped under the new one"
+				}
+				o.add(fn, "Footer literal: copied SegmentLocs are pinned", c.instrPos(st), pinned, why)
+			}
+		})
+	}
+	return o.list
+}
+
 func ruleRef8(c *Ctx) []*Ob {
 	o := newObs(c, "REF-8")
 	for _, f := range c.Funcs {
